@@ -1,7 +1,8 @@
 #!/bin/sh
 # Builds the harness offline from files on disk and parses every specification.
 set -e
-ROOT=${VERIF_ROOT:-/verif}
+ROOT=${VERIF_ROOT:-$(cd "$(dirname "$0")" && pwd)}
+export VERIF_ROOT=$ROOT
 cd $ROOT/harness
 export GOFLAGS=-mod=mod GOPROXY=off GOSUMDB=off GOTOOLCHAIN=local
 mkdir -p $ROOT/bin $ROOT/out $ROOT/evidence
